@@ -13,6 +13,8 @@ var tiers = map[string][3]int{
 	"C02": {1500, 12000, 0},
 	"C03": {8000, 150000, 240},
 	"C05": {1200, 20000, 0},
+	"C06": {800, 15000, 0},
+	"C12": {150, 3000, 0},
 }
 
 func tierOf(id string, thorough bool) tierCfg {
@@ -35,5 +37,13 @@ func init() {
 	props["C05"] = propCfg{
 		Rule:        "luagen generates 1-3-file workspaces (tiny name pool a..e to force shadowing, redeclaration in the same block, sibling-scope reuse, upvalues, parameters, loop variables, local function recursion, repeat-until reads, method definitions, globals defined in one file and read in another; simple one-statement-per-line layout); textDocument/definition is asked at the first and the last character of every variable occurrence. Oracle: the reference binder — a bound occurrence must yield exactly the declaring identifier's range, a global with defining assignments in the workspace a non-empty set of such assignments, anything else nothing. Non-trivial: a workspace with a queried name declared at least twice in its file, an upvalue, or a cross-file global; distinct by workspace text.",
 		Assumptions: append([]string{refluaAssume, "don't-care: self, _G, _ENV, built-in library names, field names, labels"}, commonAssume...),
+	}
+	props["C06"] = propCfg{
+		Rule:        "workspaces as in C05; textDocument/references (declarations included, the server default) is asked at every variable occurrence. Oracle: set equality between the returned (file, range) set and the reference binder's occurrence class of that variable (declaration, reads, assignment targets; for a global: every occurrence bound to that global in every file). Non-trivial: a workspace where a queried class has >= 3 members including an assignment target, or a global class spanning several files; distinct by workspace text.",
+		Assumptions: append([]string{refluaAssume, "don't-care: self, _G, built-in names, globals that no file defines"}, commonAssume...),
+	}
+	props["C12"] = propCfg{
+		Rule:        "positions: every variable occurrence of generated workspaces (as C05) and, for 5% of the cases, of a workspace taken verbatim from the repository's testdata directories. No external oracle: for position p with D = definition(p), R = references(p): every r in R must resolve to D; p must be among references(D); documentHighlight(p) must equal the members of R in p's file; hover(p) must name the identifier and start with `local` exactly when the declaration found at D is a local declaration. Non-trivial: a workspace with a queried name declared at least twice in its file; distinct by workspace text.",
+		Assumptions: append([]string{"no edits are sent in these sessions (highlight is rate-limited for 3 s after a change)", "don't-care: built-ins, self, field names; testdata files with tabs or non-ASCII text are not queried (column defects belong to C04)"}, commonAssume...),
 	}
 }
